@@ -23,7 +23,7 @@ from . import observe as ob
 IDS = ["M", "K", "N", "J"]
 
 MUTATORS = ("ref", "hw", "posref", "append", "extend", "setitem", "fiadd", "fimul", "filshift",
-            "updc", "updp", "clear", "setroot")
+            "updc", "updp", "updbelow", "clear", "setroot")
 C03_FAMILY = ("ref", "hw", "posref", "get", "getpos")
 
 
@@ -844,7 +844,35 @@ class TreeSim(WorldBase):
         if any((not isinstance(c, int)) or c < 0 or c >= S for c in f.coords):
             raise Skip("coords outside shape")
         try:
+            if a.get("via") == "t" and level == 0 and False:
+                pass
             f.updateCoords(fn)
+        except Exception as e:
+            return {"status": f"exc:{type(e).__name__}"}
+        return {}
+
+    def op_updbelow(self, a, targets):
+        """updateCoords / updatePayloads reaching `depth` levels below the addressed fiber"""
+        sl, f, level, leaf = self._mut(a, targets)
+        d = a["depth"]
+        tgt = level + d
+        if tgt >= sl.depth or d < 1:
+            raise Skip("depth")
+        S = self.level_shape(sl, tgt)
+        if not isinstance(S, int):
+            raise Skip("int shape")
+        try:
+            if a["what"] == "coords":
+                if tgt != sl.depth - 1 and False:
+                    pass
+                f.updateCoords(lambda i, c, p: S - 1 - c if isinstance(c, int) and 0 <= c < S else c, depth=d)
+            else:
+                if tgt != sl.depth - 1:
+                    raise Skip("payload updates only at the leaf level")
+                k = a.get("k", 1)
+                f.updatePayloads(lambda i, c, p: Payload(Payload.get(p) + k), depth=d)
+        except Skip:
+            raise
         except Exception as e:
             return {"status": f"exc:{type(e).__name__}"}
         return {}
@@ -933,6 +961,8 @@ class TreeSim(WorldBase):
             t.done = True
         if t.zslot is not None:
             targets.add(t.zslot)
+        if t.kind == "coishaperef" and t.aslot is not None:
+            targets.add(t.aslot)
         if t.parent is not None:
             p = self.tasks.get(t.parent)
             if p is not None and p.child == t.tid:
@@ -1209,6 +1239,80 @@ class TreeSim(WorldBase):
         elif t.info["leaf"] and isinstance(p, Payload) and action.get("act") == "acc":
             p += action["v"]
         return {"c": c}
+
+    # ---- dense co-iteration with reference creation (two destinations at once)
+    def start_coishaperef(self, tid, a, targets):
+        s1, s2 = a["slot"], a["slot2"]
+        if s1 == s2:
+            raise Skip("same tensor")
+        self.need_unfrozen(s1)
+        self.need_unfrozen(s2)
+        sl1, f1 = self.fiber_at(s1, a["prefix"])
+        sl2, f2 = self.fiber_at(s2, a["prefix2"])
+        if sl1.free or sl2.free:
+            raise Skip("free")
+        l1, l2 = len(a["prefix"]), len(a["prefix2"])
+        if sl1.depth - l1 != sl2.depth - l2:
+            raise Skip("levels")
+        S = self.level_shape(sl1, l1)
+        if not isinstance(S, int) or not isinstance(self.level_shape(sl2, l2), int):
+            raise Skip("int shape")
+        t = self.new_task(tid, "coishaperef")
+        t.slots = {s1, s2}
+        t.zslot = s1
+        t.aslot = s2
+        var = a.get("var", "shape")
+        try:
+            if var == "shape":
+                lazy = Fiber.coiterShapeRef([f1, f2])
+                exp = list(range(0, S))
+            elif var == "active":
+                lazy = Fiber.coiterActiveShapeRef([f1, f2])
+                lo, hi = f1.getActive()
+                exp = list(range(lo, hi))
+            else:
+                lo, hi, st = a["lo"], a["hi"], a.get("step", 1)
+                lazy = Fiber.coiterRangeShapeRef([f1, f2], lo, hi, st)
+                exp = list(range(lo, hi, st))
+            t.gen = iter(lazy)
+        except Exception as e:
+            t.done = True
+            return {"status": f"exc:{type(e).__name__}"}
+        t.info = {"exp": exp, "leaf": l1 == sl1.depth - 1, "got": []}
+        targets.add(s1)
+        targets.add(s2)
+        return {}
+
+    def step_coishaperef(self, t, action, targets):
+        targets.add(t.zslot)
+        targets.add(t.aslot)
+        try:
+            c, ps = next(t.gen)
+        except StopIteration:
+            t.done = True
+            return {"end": True}
+        except Exception as e:
+            t.done = True
+            return {"status": f"exc:{type(e).__name__}"}
+        t.yields += 1
+        if t.yields > len(t.info["exp"]) + 2:
+            t.done = True
+            self.V("C01", "C01.wellformed", "coishaperef", "dense co-iteration with references does not terminate")
+        if t.info["leaf"] and action.get("act") in ("assign", "acc"):
+            try:
+                p = ps[action.get("which", 0) % 2]
+            except Exception:
+                return {"c": c}
+            if isinstance(p, Payload):
+                if action["act"] == "assign":
+                    p <<= action["v"]
+                else:
+                    p += action["v"]
+        return {"c": c}
+
+    def _close_targets(self, t, targets):
+        if t.kind == "coishaperef" and t.aslot is not None:
+            targets.add(t.aslot)
 
     # ---- read-only traversals held open while other things happen
     def start_rotrav(self, tid, a, targets):
@@ -1706,6 +1810,23 @@ class TreeSim(WorldBase):
         return ["op", "updp", {"slot": s, "prefix": enc_point(pre), "fn": g.choice(["inc", "inc", "same", "zero"]),
                                "k": g.randrange(1, 4)}]
 
+    def gen_updbelow(self, g):
+        s = self.pick_slot(g)
+        if s is None:
+            return None
+        sl = self.slots[s]
+        if sl.depth < 2:
+            return None
+        k = g.randrange(sl.depth - 1)
+        pre = self.existing_prefix(g, sl, k)
+        if pre is None:
+            return None
+        d = g.randrange(1, sl.depth - k)
+        what = g.choice(["coords", "payloads"])
+        if what == "payloads":
+            d = sl.depth - 1 - k
+        return ["op", "updbelow", {"slot": s, "prefix": enc_point(pre), "depth": d, "what": what, "k": g.randrange(1, 4)}]
+
     def gen_clear(self, g):
         r = self._leaf_fiber(g, need_leaf=g.random() < 0.5)
         if r is None:
@@ -1757,6 +1878,39 @@ class TreeSim(WorldBase):
         self.next_tid += 1
         return ["start", tid, "ishaperef", a]
 
+    def gen_coishaperef(self, g):
+        if len(self.slots) < 2:
+            return None
+        s = self.pick_slot(g)
+        if s is None:
+            return None
+        others = [x for x in self.slots if x != s and not self.frozen(x) and not self.slots[x].free
+                  and self.slots[x].depth > 0]
+        if not others:
+            return None
+        o = g.choice(others)
+        sl, osl = self.slots[s], self.slots[o]
+        for _ in range(5):
+            k = g.choice([sl.depth - 1] * 2 + list(range(sl.depth)))
+            ko = osl.depth - (sl.depth - k)
+            if ko < 0:
+                continue
+            pre = self.existing_prefix(g, sl, k)
+            opre = self.existing_prefix(g, osl, ko)
+            if pre is None or opre is None or not isinstance(sl.shape[k], int) or not isinstance(osl.shape[ko], int):
+                continue
+            a = {"slot": s, "prefix": enc_point(pre), "slot2": o, "prefix2": enc_point(opre),
+                 "var": g.choice(["shape", "active", "range"])}
+            if a["var"] == "range":
+                S = sl.shape[k]
+                a["lo"] = g.randrange(0, S)
+                a["hi"] = g.randrange(a["lo"], S + 1)
+                a["step"] = g.choice([1, 1, 2])
+            tid = self.next_tid
+            self.next_tid += 1
+            return ["start", tid, "coishaperef", a]
+        return None
+
     def gen_rotrav(self, g):
         s = self.pick_slot(g, unfrozen=False)
         if s is None:
@@ -1796,6 +1950,13 @@ class TreeSim(WorldBase):
                 return {"act": "accsrc"}
             if r < 0.72:
                 return {"act": "zero"}
+            return {"act": "leave"}
+        if t.kind == "coishaperef":
+            r = g.random()
+            if r < 0.35:
+                return {"act": "assign", "v": self.nextval(), "which": g.randrange(2)}
+            if r < 0.5:
+                return {"act": "acc", "v": 1, "which": g.randrange(2)}
             return {"act": "leave"}
         if t.kind == "ishaperef":
             r = g.random()
@@ -1857,7 +2018,7 @@ def _weighted(g, w):
 ob._k = lambda c: repr(c)
 
 ALLMUT = {"ref": 6, "hw": 3, "posref": 2, "append": 2, "extend": 1, "setitem": 3, "fiadd": 1, "fimul": 1,
-          "filshift": 1.5, "updc": 1.5, "updp": 1.5, "clear": 1, "populate": 3, "descend": 6, "ishaperef": 2,
+          "filshift": 1.5, "updc": 1.5, "updp": 1.5, "updbelow": 1, "clear": 1, "populate": 3, "descend": 6, "ishaperef": 2, "coishaperef": 1,
           "new_op": 0.5}
 BASE_WEIGHTS = {
     "C01": dict(ALLMUT, get=1, rotrav=0.5, vr=1.5, ro=0.5),
